@@ -19,6 +19,8 @@ def history(rng):
     ntag = 0
     closed = False
     answered = set()     # a genuine reply is on the way / was delivered: blocking on these returns at once
+    preset = set()       # calls whose serial the application chose itself
+    pool = [0x7fffffff, 0x80000000, 0x80000001, 0xc0000001, 0xfffffff0, 0x7ffffff0, 0xffffffff]
     for _ in range(rng.choice([5, 8, 12])):
         r = rng.random()
         live = [t for t in tags]
@@ -26,14 +28,22 @@ def history(rng):
             ntag += 1
             T = rng.choice([150, 400, -1, -1])
             cmds.append(['call', ntag, T, int(rng.random() < 0.7)])
+            if rng.random() < 0.2:
+                # a serial of the application's own choosing, around the sign bit and the top of the range
+                cmds[-1].append(pool.pop(rng.randrange(len(pool))))
+                preset.add(ntag)
             tags.append(ntag)
         elif r < 0.55 and live and not closed:
             cmds.append(['reply', rng.choice(live), rng.choice(['ret', 'ret', 'err', 'dup', 'bogus'])])
+            if cmds[-1][2] == 'bogus' and cmds[-1][1] in preset:
+                cmds[-1][2] = 'ret'          # ("serial + 1000" is not representable next to the top of the range)
             if cmds[-1][2] != 'bogus':
                 answered.add(cmds[-1][1])
             if rng.random() < 0.25:          # a second reply right behind the first (same dispatch)
                 t2 = rng.choice(live)
                 cmds.append(['reply', t2, rng.choice(['ret', 'err', 'dup', 'bogus'])])
+                if cmds[-1][2] == 'bogus' and t2 in preset:
+                    cmds[-1][2] = 'err'
                 if cmds[-1][2] != 'bogus':
                     answered.add(t2)
             # the harness's next command may or may not dispatch what is on the way: always settle it first, except
